@@ -39,6 +39,15 @@ def configs(tier, seed):
                             "params": {"nu": nu, "rho": rho}, "cost": T * arity(part, d) * d})
     for c in c01.modeb_configs(tier, ["Zooming"], parts=("B", "K3", "RB", "DB", "K4")):
         out.append(dict(c, name="zoom-" + c["name"]))
+    # far into the run: phases 10-12 (rounds 1023, 2047, 4095 are phase boundaries); the concrete prefix is checked round by round
+    # like every other round, the last k rounds are symbolic (seed S-C11-6: a phase table that ends after phase 11)
+    for P in ((1021, 4093) if q == 0 else (1021, 2045, 4093, 8189)):
+        k = 2
+        c = c01._cfg("Zooming", "B", 1, P + k, {"nu": 1, "rho": 0.9}, "-P%d+%d-s0" % (P, k))
+        c["name"] = "zoom-modeb-" + c["name"]
+        c["prefix"] = {"P": P, "k": k, "seed": 0, "peak": 0.3, "noise": 0.25}
+        c["cost"] = P
+        out.append(c)
     out.append({"name": "twin-zoom", "algo": "Zooming", "part": "B", "d": 1, "T": 2, "params": {}, "twin": True, "expect_fail": "twin"})
     return out
 
